@@ -105,7 +105,7 @@ class Compose(Machine):
                        "inplace_rejected", "alignment_operand", "alignment_inplace_target", "self_composition",
                        "inplace_on_result_then_operands_probed", "decompose_recompose", "pwa_in_domain_law",
                        "chain_inplace", "from_vector_inplace", "integer_dtype_parameters",
-                       "projective_matrix_with_zero_corner")
+                       "projective_matrix_with_zero_corner", "operand_updated_in_place_then_same_composition_repeated")
 
     @classmethod
     def swarm(cls, rng, tier):
@@ -126,8 +126,11 @@ class Compose(Machine):
         if r < 0.78:
             return {"op": "inplace", "i": rng.randrange(64), "j": rng.randrange(64), "after": rng.randrange(2),
                     "rec": rng.randrange(3)}
-        if r < 0.83:
+        if r < 0.81:
             return {"op": "from_vector", "i": rng.randrange(64), "seed": rng.getrandbits(16)}
+        if r < 0.83:
+            return {"op": "recompose", "i": rng.randrange(64), "j": rng.randrange(64), "after": rng.randrange(2),
+                    "dst": rng.randrange(64), "rec": rng.randrange(3), "seed": rng.getrandbits(16)}
         if r < 0.88:
             return {"op": "copy", "i": rng.randrange(64), "dst": rng.randrange(64)}
         if r < 0.93:
@@ -505,6 +508,38 @@ class Compose(Machine):
         a.inplace_touched = True
         self._check_entry(a, "from_vector_inplace_same_map")
         self._check_class(a, "inplace_target")
+
+    def _op_recompose(self, op):
+        """a.compose(b); b's parameters are updated in place (from_vector_inplace); the very same call again: the second
+        result is the composition of the operands as they are NOW."""
+        if not self.pool or "seed" not in op:
+            return
+        a, b = self._pick(op, "i"), self._pick(op, "j")
+        if a.H is None or b.H is None or b.frozen or isinstance(b.obj, (Alignment, Rotation)) \
+                or not hasattr(b.obj, "from_vector_inplace"):
+            return
+        try:
+            v = np.array(b.obj.as_vector(), dtype=float)
+            if v.ndim < 1:
+                return
+            g = rs(op["seed"])
+            v = v * (1.0 + 0.05 * g.rand(*v.shape)) + 0.01 * g.rand(*v.shape)
+            Ho = np.array(b.obj.from_vector(v).h_matrix, dtype=float)
+        except Exception:
+            return
+        if not self._ok_numerics(Ho) or not self._ok_numerics((a.H @ Ho) if op["after"] else (Ho @ a.H)):
+            return
+        try:
+            a.obj.compose_after(b.obj) if op["after"] else a.obj.compose_before(b.obj)     # result not kept
+            b.obj.from_vector_inplace(v)
+        except Exception as ex:
+            self.ctx.fail("inplace", "from_vector_inplace_raised_" + type(b.obj).__name__, repr(ex))
+            return
+        self.ctx.probe("operand_updated_in_place_then_same_composition_repeated")
+        b.H = Ho
+        b.inplace_touched = True
+        self._check_entry(b, "from_vector_inplace_same_map")
+        self._op_compose(op)
 
     def _op_copy(self, op):
         if not self.pool:
